@@ -95,6 +95,7 @@ fn step(fx: &Fixture, pre: &Snap, pre_map: &Map, st: &Step, is_new: &dyn Fn(u64)
     materialize(pre, dir.path());
     prof(0, &mut t);
     let mut api_calls = 0;
+    let mut post_of_tx: Option<Snap> = None;
     let (class, nontrivial, post_map): (String, bool, Option<Map>) = match st {
         Step::Tx(tx) => {
             let predicted = model_apply(pre_map, tx);
@@ -121,6 +122,19 @@ fn step(fx: &Fixture, pre: &Snap, pre_map: &Map, st: &Step, is_new: &dyn Fn(u64)
             let (class, nontrivial, post_map) = match (&predicted, &outcome) {
                 (Predicted::Ok(m), TxOutcome::Committed) => {
                     (format!("ok:{}:{pm}", if changed(m) { "changed" } else { "noop" }), changed(m), Some(m.clone()))
+                }
+                (Predicted::Ok(_), TxOutcome::PrepareErr("ReferenceOutOfDate", d))
+                    if tx.edits.iter().any(|e| {
+                        e.deref
+                            && matches!(e.chg, Chg::Delete { expected: Exp::MustExistAndMatch(_) | Exp::ExistingMustMatch(_) })
+                            && matches!(pre_map.get(&e.name), Some(Val::Sym(_)))
+                    }) =>
+                {
+                    // narrow failure shape: the value expectation of a dereferencing deletion is (also) applied to the symbolic ref itself
+                    return Err(format!(
+                        "delete-deref-expectation-on-symbolic-ref: a Delete with deref and a value expectation through a symbolic ref is refused although the referent satisfies it (model: success) from {:?}: {d}",
+                        view_of_map(pre_map)
+                    ));
                 }
                 (Predicted::Ok(m), other) => {
                     return Err(format!(
@@ -153,6 +167,23 @@ fn step(fx: &Fixture, pre: &Snap, pre_map: &Map, st: &Step, is_new: &dyn Fn(u64)
                 }
             };
             if let Some(m) = &post_map {
+                if view_same_store != view_of_map(m)
+                    && tx.packed == 2
+                    && outcome == TxOutcome::Committed
+                    && !view_same_store.contains_key("HEAD")
+                    && tx.edits.iter().any(|e| {
+                        e.name == HEAD
+                            && matches!(e.chg, Chg::Update { new: Val::Id(_), .. })
+                            && !e.log_only
+                            && !(e.deref && matches!(pre_map.get(&HEAD), Some(Val::Sym(_))))
+                    })
+                {
+                    // narrow failure shape: HEAD cannot live in packed-refs, yet the loose file is removed in this mode
+                    return Err(format!(
+                        "unpackable-ref-lost-in-remove-loose-mode: HEAD updated to an object id with DeletionsAndNonSymbolicUpdatesRemoveLooseSourceReference is gone afterwards: model expects {:?}, store shows {view_same_store:?}",
+                        view_of_map(m)
+                    ));
+                }
                 if view_same_store != view_of_map(m) {
                     return Err(format!(
                         "gix-view-mismatch: after {outcome:?} the model expects {:?} (from {:?}) but the store that ran the transaction shows {view_same_store:?}",
@@ -161,6 +192,7 @@ fn step(fx: &Fixture, pre: &Snap, pre_map: &Map, st: &Step, is_new: &dyn Fn(u64)
                     ));
                 }
             }
+            post_of_tx = Some(post);
             (class, nontrivial, post_map)
         }
         Step::Env(op) => {
@@ -202,7 +234,7 @@ fn step(fx: &Fixture, pre: &Snap, pre_map: &Map, st: &Step, is_new: &dyn Fn(u64)
             (format!("git:{kind}:{}", if o.ok { "done" } else { "refused" }), o.ok, Some(m))
         }
     };
-    let post = snapshot(dir.path());
+    let post = post_of_tx.unwrap_or_else(|| snapshot(dir.path()));
     let mut git_observed = false;
     if let Some(m) = &post_map {
         // a fresh store (what the next step and any other process will see)
@@ -291,9 +323,14 @@ pub fn run(run: &'static Run) {
     }
     let rich = !run.quick();
     let depth: usize = std::env::var("VERIF_C16_DEPTH").ok().and_then(|s| s.parse().ok()).unwrap_or(run.pick(2, 3));
-    let mut steps: Vec<Step> = alphabet(rich).into_iter().map(Step::Tx).collect();
-    let n_tx = steps.len();
-    steps.extend(env_steps());
+    let mut steps_main: Vec<Step> = alphabet(rich).into_iter().map(Step::Tx).collect();
+    let n_tx = steps_main.len();
+    steps_main.extend(env_steps());
+    // the last level of the thorough tier uses the plain (quick) alphabet: |states at depth 2| x |rich alphabet| does not fit the time box
+    let mut steps_last: Vec<Step> = alphabet(false).into_iter().map(Step::Tx).collect();
+    let n_tx_last = steps_last.len();
+    steps_last.extend(env_steps());
+    let plain_from: usize = if rich { 3 } else { usize::MAX };
     run.rule(format!(
         "BFS to depth {depth} with dedup over canonical directory snapshots (reflog content dropped, presence kept) from 3 initial stores \
          (empty+unborn HEAD; refs/heads/a packed+stale loose copy, refs/tags/t packed-only annotated tag; 2-hop symbolic chain HEAD->refs/tags/t->refs/heads/a); \
@@ -305,13 +342,16 @@ pub fn run(run: &'static Run) {
          non-trivial = transition that changed the map or was refused",
         if rich { ",sym->refs/tags/t" } else { "" },
         if rich { " + RefLog::Only variants" } else { "" },
-        steps.len() - n_tx,
+        steps_main.len() - n_tx,
     ));
+    if rich && depth >= plain_from {
+        run.rule(format!("from depth {plain_from} on, the alphabet per state is the plain one ({n_tx_last} transactions: without sym->refs/tags/t, RefLog::Only and the swapped 2-edit transactions)"));
+    }
     run.assume("directory/file pair refs/heads/a vs refs/heads/a/b: either refusal (nothing changes) or the plain map result is accepted (loose storage cannot hold both, packed storage can); a failing commit() there may be partial as documented");
     run.assume("an absent refs/ directory is equivalent to an empty one (gitoxide deliberately prunes it, git needs it): it is re-created before git is asked");
     run.assume("states without HEAD are observed through gitoxide only (git does not recognise the directory); git 2.39 is the second observer everywhere else");
     run.assume("Delete with PreviousValue::MustNotExist is outside the domain (documented as invalid); lock mode Immediately, no concurrent party (contention is C17)");
-    run.budget_secs(run.pick(33.0, 540.0));
+    run.budget_secs(std::env::var("VERIF_C16_BUDGET").ok().and_then(|s| s.parse().ok()).unwrap_or(run.pick(33.0, 540.0)));
 
     let seen: Mutex<HashSet<u64>> = Mutex::new(HashSet::new());
     let mut frontier: Vec<Node> = Vec::new();
@@ -340,6 +380,7 @@ pub fn run(run: &'static Run) {
     let mut capped = false;
 
     for d in 1..=depth {
+        let steps: &Vec<Step> = if d >= plain_from { &steps_last } else { &steps_main };
         let total = frontier.len() * steps.len();
         let next_idx = AtomicUsize::new(0);
         let new_nodes: Mutex<Vec<Node>> = Mutex::new(Vec::new());
